@@ -161,6 +161,9 @@ def run_case(case, res):
     d = cfg["d"]
     nout = rng.choice([1, 1, 2, 3])
     comps = make_integrand(rng, d, nout, case["seed"])
+    oscale = rng.choice([1.0, 1.0, 1e-9, 1e-4, 1e3])
+    if oscale != 1.0:
+        comps = [(lambda g: (lambda p: oscale * g(p)))(g) for g in comps]
     norm = rng.choice([1, 2, np.inf])
     tol = rng.choice([-1.0, 0.0, 1e-6, 1e-3, 1e-2, 10.0])
     min_ev = rng.choice([1, 1, 40, 10 ** 4])
@@ -171,10 +174,17 @@ def run_case(case, res):
     if refkind == "zero":
         reference = np.zeros(nout)
     elif refkind == "random":
-        reference = np.array([rng.choice([-1, 1]) * rng.uniform(0.5, 3) for _ in range(nout)])
+        reference = np.array([oscale * rng.choice([-1, 1]) * rng.uniform(0.5, 3) for _ in range(nout)])
     elif refkind == "near":
         # first pass: converged-ish value with the same configuration and a moderate budget
         _, _, _, r0 = run_once(strategy, cfg, comps, None, norm, -1.0, 1, 150 if d <= 2 else 120)
+        if r0 is not None and rng.random() < 0.5 and len(r0[6]) >= 2:
+            # limits that TIE with an attained point count (>= for the minimum, > for the maximum)
+            cnt = int(rng.choice(list(r0[6])))
+            if rng.random() < 0.6:
+                min_ev, tol = cnt, max(tol, 1e-2)
+            else:
+                max_ev = cnt
         if r0 is None:
             res.note("ended_by_harness_guard(livelock or depth cap):" + strategy)
             res.hash = digest(["livelock", case["seed"]])
@@ -183,7 +193,7 @@ def run_case(case, res):
         if np.all(np.abs(base) > 1e-12):
             reference = base * (1.0 + rng.choice([1e-3, -2e-3, 1e-5]))
         else:
-            reference = np.array([rng.uniform(0.5, 3) for _ in range(nout)])
+            reference = np.array([oscale * rng.uniform(0.5, 3) for _ in range(nout)])
             refkind = "random"
     c, f, obs, r = run_once(strategy, cfg, comps, reference, norm, tol, min_ev, max_ev)
     if r is None:
@@ -192,7 +202,7 @@ def run_case(case, res):
         return
     ev = [e for e in obs.events if e[0] == "EVAL"]
     n = len(ev)
-    ctx = {"strategy": strategy, "tol": tol, "min": min_ev, "max": max_ev, "norm": str(norm), "reference": refkind, "nout": nout,
+    ctx = {"strategy": strategy, "output_scale": oscale, "tol": tol, "min": min_ev, "max": max_ev, "norm": str(norm), "reference": refkind, "nout": nout,
            "errors": [float(e[1]) for e in ev][:12], "points": [int(e[3]) for e in ev][:12], "cfg": cfg}
 
     def stop(e):
